@@ -145,6 +145,7 @@ Definition decode_keeps_frame_copy : bool := true.
 Definition dispatch_continues_after_reply : bool := true.
 Definition dispatch_progress_guard : bool := true.
 Definition dubbo_cmp_int : bool := true.
+Definition dubbo_meta_unlock_every_exit : bool := true.
 Definition dubbo_setdata_resets_raw : bool := true.
 Definition hdr_end_u32 : bool := false.
 Definition select_shape_ok : bool := true.
@@ -156,5 +157,5 @@ Definition thrift_enc_fields_after_body : bool := true.
 Definition thrift_len_has_prefix : bool := true.
 Definition thrift_match_first_zero : bool := true.
 Definition xp_hdr_checked : bool := true.
-Definition CodecSrc_all : list bool * list N * list N := ([bolt_enc_checked; bolt_gate_first; ctx_reset_puts_once; decode_keeps_frame_copy; dispatch_continues_after_reply; dispatch_progress_guard; dubbo_cmp_int; dubbo_setdata_resets_raw; hdr_end_u32; select_shape_ok; setdata_sees_inplace_rewrite; tars_reader_in_frame; tars_stype_in_frame; thrift_copies_frame; thrift_enc_fields_after_body; thrift_len_has_prefix; thrift_match_first_zero; xp_hdr_checked], tars_resp_types, tars_req_types).
+Definition CodecSrc_all : list bool * list N * list N := ([bolt_enc_checked; bolt_gate_first; ctx_reset_puts_once; decode_keeps_frame_copy; dispatch_continues_after_reply; dispatch_progress_guard; dubbo_cmp_int; dubbo_meta_unlock_every_exit; dubbo_setdata_resets_raw; hdr_end_u32; select_shape_ok; setdata_sees_inplace_rewrite; tars_reader_in_frame; tars_stype_in_frame; thrift_copies_frame; thrift_enc_fields_after_body; thrift_len_has_prefix; thrift_match_first_zero; xp_hdr_checked], tars_resp_types, tars_req_types).
 Definition CodecSrc_translator_ok := true.
